@@ -230,7 +230,15 @@ generate_wrappers() {
   // We use a while loop rather than a simple for loop, because we might
   // increase the number of types recursively during the traversal.
   int ti = 0;
+  int max_num_types = idb->get_num_all_types() * 4 + 2000;
   while (ti < idb->get_num_all_types()) {
+    if (idb->get_num_all_types() > max_num_types) {
+      // A template whose methods mention a bigger instantiation of itself
+      // (P<T> returning P<T *>) would keep us here forever.
+      nout << "Recording wrappers keeps creating new types (recursively "
+              "instantiated template?); giving up.\n";
+      exit(1);
+    }
     TypeIndex type_index = idb->get_all_type(ti++);
     record_object(type_index);
   }
